@@ -404,3 +404,18 @@ def _ordered(node: ast.AST):
         if isinstance(child, (ast.FunctionDef, ast.AsyncFunctionDef, ast.ClassDef, ast.Lambda)):
             continue
         yield from _ordered(child)
+
+
+_CONST_CTORS = {'frozenset': frozenset, 'set': set, 'tuple': tuple, 'list': list, 'dict': dict}
+
+
+def const_eval(val: ast.expr):
+    """Value of a constant display: a literal, or frozenset/set/tuple/list/dict(...) of literals.  Raises ValueError otherwise."""
+    try:
+        return ast.literal_eval(val)
+    except Exception:  # noqa: BLE001
+        pass
+    if isinstance(val, ast.Call) and isinstance(val.func, ast.Name) and val.func.id in _CONST_CTORS and not val.keywords \
+            and len(val.args) <= 1:
+        return _CONST_CTORS[val.func.id](*[const_eval(x) for x in val.args])
+    raise ValueError('not a constant display')
